@@ -8,7 +8,7 @@ import PP.Gen.Curve
 
 namespace PP
 
-variable {F : Type} [FieldOps F] [DecidableEq F]
+variable {F : Type} [Add F] [Sub F] [Mul F] [Neg F] [Zero F] [One F] [FieldOps F] [DecidableEq F]
 
 def Jac.doubleN (p : Jac F) : Nat → Jac F
   | 0 => p
